@@ -246,3 +246,250 @@ Check C07_numbersdirect_cleanup. Check C07_numbersdirect_cleanup_vs_never. Check
 Print Assumptions C07_numbersdirect_cleanup.
 Print Assumptions C07_numbersdirect_cleanup_vs_never.
 Print Assumptions C07_numbersdirect_cleanup_no_panic.
+
+(* ====================================================================================================================
+   THE TIME-STAMP NAMINGS.  The files are named by keys (second, position within the second): r<time stamp>,
+   r<time stamp>.restart-0000, ...; `keys` lists the keys in the order of writing (keys_ok: seconds non-decreasing, within a
+   second the positions 0, 1, 2, ..).  Hypotheses as for the stream theorems (C01): tag_ok, the years 1970..9999, a clock
+   that does not go backwards (tick_ok); and as for the number namings: the suffix does not end in .gz (sfx_ok). *)
+Require Import FL.Time.Civil FL.Time.TsFormat FL.Flw.TsTime FL.Flw.TsNames FL.Flw.TsInv FL.Flw.TsRun FL.Flw.TsTheorems FL.Flw.GenCleanup FL.Flw.TsCleanupNames
+  FL.Flw.TsdCleanupRun FL.Flw.TsdCleanup FL.Flw.TsCleanupRun FL.Flw.TsCleanup.
+
+(* the listing that the cleanup works on orders the names of the family - plain or archive, mixed - by their KEYS: for
+   different seconds by the time-stamp text, within a second by the restart counter *)
+Theorem C07_listing_key_order c e k1 k2 (g1 g2 : bool) :
+  sfx_ok (c_spec c) -> in_years e (fst k1) -> in_years e (fst k2) -> klt k1 k2 ->
+  key_le (fsfx (c_spec c)) (add_gz g1 (kname c e k1)) (add_gz g2 (kname c e k2)) = true.
+Proof. exact (key_le_kname c e k1 k2 g1 g2). Qed.
+
+(* ... so on a directory that holds the plain files of the keys at the positions mid <= i < L and the archives of those at
+   lo <= i < mid (and possibly rCURRENT) the listing is exactly: NEWEST KEY FIRST the plain files, then the archives *)
+Theorem C07_listing_ts c e off f (keys : list key) closed lo mid :
+  sfx_ok (c_spec c) -> keys_ok keys -> (forall k, In k keys -> in_years e (fst k)) -> length keys = length closed ->
+  gdir (tname c e keys) (cname c) f closed lo mid ->
+  list_log_gz off (c_spec c) (fixed0 c) f (IFTs std_fmt)
+  = Some (rev (map (tname c e keys) (seq mid (length closed - mid))) ++ rev (map (gzf (tname c e keys)) (seq lo (mid - lo)))).
+Proof. exact (list_log_gz_ts c e off f keys closed lo mid). Qed.
+
+(* END TO END, TimestampsDirect naming (no rCURRENT: the file being written carries the newest key, L = number of closed files).
+   As for NumbersDirect naming the file being written is part of the listing and COUNTS for the first limit; the code raises a
+   first limit of 0 to 1, which is what protects it: (n, m) = klimd k = (max 1 n0, m).  In the end exactly the current file
+   and the newest n - 1 closed files (plain, as they were closed) and the next m (complete archives of exactly what the file
+   held) exist; everything older is gone; the current file is never compressed or removed; what survives, read in key order, is
+   a suffix of what was written.  (tick_ok is necessary: with a clock that goes backwards the cleanup removes or compresses
+   the file that is being written, and records are lost without any error - Flw/TsdCleanup.clock_backwards_current_removed.) *)
+Theorem C07_timestampsdirect_cleanup c crit k n m t0 off ops closed cur :
+  tsdkcfg c crit k -> klimd k = Some (n, m) -> tag_ok c -> sfx_ok (c_spec c) ->
+  Forall basic_op ops -> Forall tick_ok ops ->
+  (0 <= t0 + ts_e c off)%Z -> (t0 + elapsed ops + ts_e c off < sec_max)%Z -> (N.of_nat (length ops) <= usize_max)%N ->
+  a_run None ops (snd (run (fst (step (sys0 t0 off) (OStart c))) ops)) = Some (closed, cur) ->
+  let f := wfs (s_w (fst (run (sys0 t0 off) (OStart c :: ops ++ [OStop])))) in
+  let L := length closed in let lo := S L - (n + m) in let mid := S L - n in
+  concat closed ++ cur = written ops
+  /\ exists keys : list key,
+       let K i := kname c (ts_e c off) (nth i keys kd) in
+       let G i := gz_name (K i) in
+       length keys = S L /\ keys_ok keys /\ (forall key, In key keys -> (t0 <= fst key <= t0 + elapsed ops)%Z)
+       /\ (forall x, (exists j, lookup f x = Some j) <->
+             (exists i, mid <= i <= L /\ x = K i) \/ (exists i, lo <= i < mid /\ x = G i))
+       /\ NoDup (dir_names f)
+       /\ lookup f (cname c) = None
+       /\ 1 <= n /\ mid <= L /\ S L - mid <= n /\ mid - lo <= m
+       /\ (forall off', list_log_gz off' (c_spec c) (fixed0 c) f (IFTs std_fmt)
+                        = Some (rev (map K (seq mid (S L - mid))) ++ rev (map G (seq lo (mid - lo)))))
+       /\ (forall i, mid <= i < L -> lookup f (G i) = None /\
+             exists fl, file_of f (K i) = Some fl /\ fdata fl = nth i closed [] /\ fgz fl = 0%N /\ fdir fl = false)
+       /\ (forall i, lo <= i < mid -> lookup f (K i) = None /\
+             exists fl, file_of f (G i) = Some fl /\ fdata fl = nth i closed [] /\ fgz fl = 1%N /\ fdir fl = false)
+       /\ (forall i, i < lo -> lookup f (K i) = None /\ lookup f (G i) = None)
+       /\ written ops = concat (firstn lo closed) ++ concat (map (fun i => data_at f (if mid <=? i then K i else G i)) (seq lo (S L - lo)))
+       /\ lookup f (G L) = None
+       /\ (exists fl, file_of f (K L) = Some fl /\ fdata fl = cur /\ fgz fl = 0%N /\ fdir fl = false).
+Proof. exact (timestampsdirect_cleanup c crit k n m t0 off ops closed cur). Qed.
+
+Theorem C07_timestampsdirect_cleanup_no_panic c crit k t0 off ops :
+  tsdkcfg c crit k -> tag_ok c -> sfx_ok (c_spec c) -> Forall basic_op ops -> Forall tick_ok ops ->
+  (0 <= t0 + ts_e c off)%Z -> (t0 + elapsed ops + ts_e c off < sec_max)%Z -> (N.of_nat (length ops) <= usize_max)%N ->
+  Forall obs_ok (snd (run (sys0 t0 off) (OStart c :: ops ++ [OStop]))).
+Proof. exact (timestampsdirect_cleanup_no_panic c crit k t0 off ops). Qed.
+
+(* END TO END, Timestamps naming (rCURRENT + closed files named by the second in which they were started, L = number of closed
+   files; rCURRENT is not listed and does not count): (n, m) = klim k.  In the end exactly rCURRENT, the newest n closed files
+   (plain) and the next m (complete archives) exist; everything older is gone; what survives, read in key order and then
+   rCURRENT, is a suffix of what was written.  (With n + m = 0 no name but rCURRENT is claimed; the names of the closed files
+   are then used again, Flw/TsCleanup.names_reused.) *)
+Theorem C07_timestamps_cleanup c crit k n m t0 off ops closed cur :
+  tskcfg c crit k -> klim k = Some (n, m) -> tag_ok c -> sfx_ok (c_spec c) ->
+  Forall basic_op ops -> Forall tick_ok ops ->
+  (0 <= t0 + ts_e c off)%Z -> (t0 + elapsed ops + ts_e c off < sec_max)%Z -> (N.of_nat (length ops) <= usize_max)%N ->
+  a_run None ops (snd (run (fst (step (sys0 t0 off) (OStart c))) ops)) = Some (closed, cur) ->
+  let f := wfs (s_w (fst (run (sys0 t0 off) (OStart c :: ops ++ [OStop])))) in
+  let L := length closed in let lo := L - (n + m) in let mid := L - n in
+  concat closed ++ cur = written ops
+  /\ exists keys : list key,
+       let K i := kname c (ts_e c off) (nth i keys kd) in
+       let G i := gz_name (K i) in
+       length keys = L /\ keys_ok keys /\ (forall key, In key keys -> (t0 <= fst key <= t0 + elapsed ops)%Z)
+       /\ (forall x, (exists j, lookup f x = Some j) <->
+             x = cname c \/ (exists i, mid <= i < L /\ x = K i) \/ (exists i, lo <= i < mid /\ x = G i))
+       /\ NoDup (dir_names f)
+       /\ L - mid <= n /\ mid - lo <= m
+       /\ (forall off', list_log_gz off' (c_spec c) (fixed0 c) f (IFTs std_fmt)
+                        = Some (rev (map K (seq mid (L - mid))) ++ rev (map G (seq lo (mid - lo)))))
+       /\ (forall i, mid <= i < L -> lookup f (G i) = None /\
+             exists fl, file_of f (K i) = Some fl /\ fdata fl = nth i closed [] /\ fgz fl = 0%N /\ fdir fl = false)
+       /\ (forall i, lo <= i < mid -> lookup f (K i) = None /\
+             exists fl, file_of f (G i) = Some fl /\ fdata fl = nth i closed [] /\ fgz fl = 1%N /\ fdir fl = false)
+       /\ (forall i, i < lo -> lookup f (K i) = None /\ lookup f (G i) = None)
+       /\ written ops = concat (firstn lo closed) ++ concat (map (fun i => data_at f (if mid <=? i then K i else G i)) (seq lo (L - lo))) ++ cur
+       /\ (exists fl, file_of f (cname c) = Some fl /\ fdata fl = cur /\ fgz fl = 0%N /\ fdir fl = false).
+Proof. exact (timestamps_cleanup c crit k n m t0 off ops closed cur). Qed.
+
+Theorem C07_timestamps_cleanup_no_panic c crit k t0 off ops :
+  tskcfg c crit k -> tag_ok c -> sfx_ok (c_spec c) -> Forall basic_op ops -> Forall tick_ok ops ->
+  (0 <= t0 + ts_e c off)%Z -> (t0 + elapsed ops + ts_e c off < sec_max)%Z -> (N.of_nat (length ops) <= usize_max)%N ->
+  Forall obs_ok (snd (run (sys0 t0 off) (OStart c :: ops ++ [OStop]))).
+Proof. exact (timestamps_cleanup_no_panic c crit k t0 off ops). Qed.
+
+(* ... and the READER (Oracles/ReaderOrder.v: time stamp, then restart counter, rCURRENT last, archives decompressed) finds
+   the surviving files in the order in which they were written; the executable oracles of this property - the ones that the
+   harness applies to the snapshots of the implementation, sound by C07_tail_sound / C07_limits_sound - accept the snapshot
+   that the model leaves *)
+Require Import FL.Flw.NumRestart FL.Flw.TsCleanupReader.
+Theorem C07_timestampsdirect_oracles c crit k n m t0 off ops closed cur :
+  tsdkcfg c crit k -> klimd k = Some (n, m) -> tag_ok c -> sfx_ok (c_spec c) ->
+  Forall basic_op ops -> Forall tick_ok ops ->
+  (0 <= t0 + ts_e c off)%Z -> (t0 + elapsed ops + ts_e c off < sec_max)%Z -> (N.of_nat (length ops) <= usize_max)%N ->
+  a_run None ops (snd (run (fst (step (sys0 t0 off) (OStart c))) ops)) = Some (closed, cur) ->
+  let x := fst (run (sys0 t0 off) (OStart c :: ops ++ [OStop])) in
+  family_in_order c (snap_of x) = skipn (S (length closed) - (n + m)) (closed ++ [cur])
+  /\ concat closed ++ cur = written ops
+  /\ oracle_tail c (written ops) (snap_of x) = true
+  /\ oracle_limits c (snap_of x) = true
+  /\ oracle_current_plain c (snap_of x) = true.
+Proof. exact (timestampsdirect_cleanup_reader c crit k n m t0 off ops closed cur). Qed.
+
+Theorem C07_timestamps_oracles c crit k n m t0 off ops closed cur :
+  tskcfg c crit k -> klim k = Some (n, m) -> tag_ok c -> sfx_ok (c_spec c) ->
+  Forall basic_op ops -> Forall tick_ok ops ->
+  (0 <= t0 + ts_e c off)%Z -> (t0 + elapsed ops + ts_e c off < sec_max)%Z -> (N.of_nat (length ops) <= usize_max)%N ->
+  a_run None ops (snd (run (fst (step (sys0 t0 off) (OStart c))) ops)) = Some (closed, cur) ->
+  let x := fst (run (sys0 t0 off) (OStart c :: ops ++ [OStop])) in
+  family_in_order c (snap_of x) = skipn (length closed - (n + m)) closed ++ [cur]
+  /\ concat closed ++ cur = written ops
+  /\ oracle_tail c (written ops) (snap_of x) = true
+  /\ oracle_limits c (snap_of x) = true
+  /\ oracle_current_plain c (snap_of x) = true.
+Proof. exact (timestamps_cleanup_reader c crit k n m t0 off ops closed cur). Qed.
+
+(* ... where `closed`, `cur` are what the same history leaves without cleanup: all files, plain, named by the keys *)
+Theorem C07_timestampsdirect_cleanup_vs_never c crit k t0 off ops :
+  tsdkcfg c crit k -> tag_ok c -> sfx_ok (c_spec c) -> Forall basic_op ops -> Forall tick_ok ops ->
+  (0 <= t0 + ts_e c off)%Z -> (t0 + elapsed ops + ts_e c off < sec_max)%Z -> (N.of_nat (length ops) <= usize_max)%N ->
+  let a := a_run None ops (snd (run (fst (step (sys0 t0 off) (OStart c))) ops)) in
+  let f0 := wfs (s_w (fst (run (sys0 t0 off) (OStart (never_cfg_t c crit) :: ops ++ [OStop])))) in
+  TsdInv.tsdcfg (never_cfg_t c crit) crit
+  /\ exists keys, TsdRun.tsd_view (never_cfg_t c crit) (ts_e c off) f0 keys (files_of a) /\ keys_ok keys
+                  /\ (forall key, In key keys -> (t0 <= fst key <= t0 + elapsed ops)%Z).
+Proof. exact (timestampsdirect_cleanup_vs_never c crit k t0 off ops). Qed.
+
+Theorem C07_timestamps_cleanup_vs_never c crit k t0 off ops :
+  tskcfg c crit k -> tag_ok c -> sfx_ok (c_spec c) -> Forall basic_op ops -> Forall tick_ok ops ->
+  (0 <= t0 + ts_e c off)%Z -> (t0 + elapsed ops + ts_e c off < sec_max)%Z -> (N.of_nat (length ops) <= usize_max)%N ->
+  let a := a_run None ops (snd (run (fst (step (sys0 t0 off) (OStart c))) ops)) in
+  let f0 := wfs (s_w (fst (run (sys0 t0 off) (OStart (never_cfg_s c crit) :: ops ++ [OStop])))) in
+  tscfg (never_cfg_s c crit) crit
+  /\ match a with
+     | None => names f0 = []
+     | Some (closed, cur) => exists keys, ts_view (never_cfg_s c crit) (ts_e c off) f0 keys closed cur /\ keys_ok keys
+                                          /\ (forall key, In key keys -> (t0 <= fst key <= t0 + elapsed ops)%Z)
+     end.
+Proof. exact (timestamps_cleanup_vs_never c crit k t0 off ops). Qed.
+
+Check C07_listing_key_order. Check C07_listing_ts.
+Check C07_timestampsdirect_cleanup. Check C07_timestampsdirect_cleanup_no_panic.
+Check C07_timestamps_cleanup. Check C07_timestamps_cleanup_no_panic.
+Print Assumptions C07_listing_key_order.
+Print Assumptions C07_listing_ts.
+Print Assumptions C07_timestampsdirect_cleanup.
+Print Assumptions C07_timestampsdirect_cleanup_no_panic.
+Print Assumptions C07_timestamps_cleanup.
+Print Assumptions C07_timestamps_cleanup_no_panic.
+Check C07_timestampsdirect_oracles. Check C07_timestamps_oracles.
+Print Assumptions C07_timestampsdirect_oracles.
+Print Assumptions C07_timestamps_oracles.
+Check C07_timestampsdirect_cleanup_vs_never. Check C07_timestamps_cleanup_vs_never.
+Print Assumptions C07_timestampsdirect_cleanup_vs_never.
+Print Assumptions C07_timestamps_cleanup_vs_never.
+
+
+(* the same for cleanup in the BACKGROUND thread (Flw/NumDBg.v), under the model's / harness's scheduling (each request is
+   finished before the next operation).  With a direct naming the background cleanup lists a directory that contains the
+   file being written; under this scheduling the request is worked off in the same world as in the synchronous case, and the
+   run goes through THE SAME WORLDS with the same observations (C07_bg_worlds_numbersdirect_cleanup): the file being written
+   is never compressed or removed.  Nothing is said about a cleanup that runs while the logging thread writes *)
+Require Import FL.Flw.NumDBg.
+Theorem C07_bg_worlds_numbersdirect_cleanup c crit k t0 off ops :
+  numdkcfg (nobg c) crit k -> Forall basic_op ops ->
+  dside (nobg c) k (nclosed (a_run None ops (snd (run (fst (step (sys0 t0 off) (OStart (nobg c)))) ops)))) ->
+  let rb := run (sys0 t0 off) (OStart c :: ops) in
+  let rn := run (sys0 t0 off) (OStart (nobg c) :: ops) in
+  let rb' := run (sys0 t0 off) (OStart c :: ops ++ [OStop]) in
+  let rn' := run (sys0 t0 off) (OStart (nobg c) :: ops ++ [OStop]) in
+  (s_w (fst rb) = s_w (fst rn) /\ snd rb = snd rn) /\ (s_w (fst rb') = s_w (fst rn') /\ snd rb' = snd rn').
+Proof. exact (bg_worlds_numbersdirect_cleanup c crit k t0 off ops). Qed.
+
+Theorem C07_numbersdirect_cleanup_bg c crit k n m t0 off ops closed cur :
+  numdkcfg (nobg c) crit k -> klimd k = Some (n, m) -> Forall basic_op ops ->
+  sfx_ok (c_spec c) ->
+  a_run None ops (snd (run (fst (step (sys0 t0 off) (OStart (nobg c)))) ops)) = Some (closed, cur) ->
+  let f := wfs (s_w (fst (run (sys0 t0 off) (OStart c :: ops ++ [OStop])))) in
+  let L := length closed in let lo := S L - (n + m) in let mid := S L - n in
+  concat closed ++ cur = written ops
+  /\ (forall x, (exists j, lookup f x = Some j) <->
+        (exists i, mid <= i <= L /\ x = rname c i) \/ (exists i, lo <= i < mid /\ x = gname c i))
+  /\ NoDup (dir_names f)
+  /\ lookup f (cname c) = None
+  /\ 1 <= n /\ mid <= L /\ S L - mid <= n /\ mid - lo <= m
+  /\ (forall off', list_log_gz off' (c_spec c) (fixed0 c) f IFNum = Some (listing c lo mid (S L)))
+  /\ (forall off', get_highest_index off' (c_spec c) (fixed0 c) f <> None)
+  /\ (forall i, mid <= i < L -> lookup f (gname c i) = None /\
+        exists fl, file_of f (rname c i) = Some fl /\ fdata fl = nth i closed [] /\ fgz fl = 0%N /\ fdir fl = false)
+  /\ (forall i, lo <= i < mid -> lookup f (rname c i) = None /\
+        exists fl, file_of f (gname c i) = Some fl /\ fdata fl = nth i closed [] /\ fgz fl = 1%N /\ fdir fl = false)
+  /\ (forall i, i < lo -> lookup f (rname c i) = None /\ lookup f (gname c i) = None)
+  /\ written ops = concat (firstn lo closed) ++ concat (map (fun i => data_at f (entry c mid i)) (seq lo (S L - lo)))
+  /\ lookup f (gname c L) = None
+  /\ (exists fl, file_of f (rname c L) = Some fl /\ fdata fl = cur /\ fgz fl = 0%N /\ fdir fl = false).
+Proof. exact (numbersdirect_cleanup_bg c crit k n m t0 off ops closed cur). Qed.
+
+Theorem C07_numbersdirect_cleanup_stream_bg c crit k t0 off ops :
+  numdkcfg (nobg c) crit k -> Forall basic_op ops ->
+  let a := a_run None ops (snd (run (fst (step (sys0 t0 off) (OStart (nobg c)))) ops)) in
+  dside (nobg c) k (nclosed a) ->
+  let r := run (sys0 t0 off) (OStart c :: ops ++ [OStop]) in
+  let f := wfs (s_w (fst r)) in
+  flat a = written ops
+  /\ match a with
+     | None => names f = []
+     | Some (closed, cur) => dkreader_view c f closed cur (d_lo k (length closed)) (d_mid k (length closed))
+     end
+  /\ Forall obs_ok (snd r).
+Proof. exact (numbersdirect_cleanup_stream_bg c crit k t0 off ops). Qed.
+
+Theorem C07_numbersdirect_cleanup_no_panic_bg c crit k t0 off ops :
+  numdkcfg (nobg c) crit k -> Forall basic_op ops ->
+  dside (nobg c) k (nclosed (a_run None ops (snd (run (fst (step (sys0 t0 off) (OStart (nobg c)))) ops)))) ->
+  Forall obs_ok (snd (run (sys0 t0 off) (OStart c :: ops ++ [OStop]))).
+Proof. exact (numbersdirect_cleanup_no_panic_bg c crit k t0 off ops). Qed.
+
+Check C07_bg_worlds_numbersdirect_cleanup. Check C07_numbersdirect_cleanup_bg. Check C07_numbersdirect_cleanup_stream_bg.
+Check C07_numbersdirect_cleanup_no_panic_bg.
+Print Assumptions C07_bg_worlds_numbersdirect_cleanup.
+Print Assumptions C07_numbersdirect_cleanup_bg.
+Print Assumptions C07_numbersdirect_cleanup_stream_bg.
+Print Assumptions C07_numbersdirect_cleanup_no_panic_bg.
+(* non-vacuity (c_bg = true): NumDBg.exdb_side_by_side, exdb_prefixes (every prefix of a history with a buffered writer),
+   exdb_instance, exdb_instance_names; where the variants differ (a failing cleanup): exdb_fault *)
+Check exdb_side_by_side.
+Check exdb_instance_names.
